@@ -155,7 +155,7 @@ func receiveLemmaN(p string, eventsMayFail bool, sigs int, before int) {
 	}
 	if p == "C14" || p == "" {
 		verifrt.Assert("C14/receive/mint-failure-implies-error", verifrt.Implies(mintFailed, !ok))
-		verifrt.Assert("C14/receive/success-needs-mint", verifrt.Implies(verifrt.All(ok, toModule), verifrt.All(nMints == 1, !mintFailed)))
+		verifrt.Assert("C14/receive/success-needs-mint", verifrt.Implies(verifrt.All(ok, toModule), verifrt.All(nMints == 1, !mintFailed, h.Env.Marked("mint_0"))))
 		if eventsMayFail {
 			verifrt.Assert("C14/receive/event-failure-implies-error", verifrt.Implies(h.Env.EventFailures() > 0, !ok))
 		}
